@@ -95,7 +95,7 @@ impl ToTokens for TypesFragment {
   fn to_tokens(&self, tokens: &mut TokenStream) {
     let use_statements = ModuleUsesFragment::new(self.uses.clone());
     let regex_result = RegexConstantsResult::from_types(&self.rust_types);
-    let header_consts = HeaderConstantsFragment::new((*self.header_refs).clone());
+    let header_consts = HeaderConstantsFragment::new((*self.header_refs).clone()).with_visibility(self.visibility);
 
     let type_tokens = self
       .rust_types
